@@ -15,7 +15,6 @@ use std::sync::atomic::{AtomicU64, AtomicUsize, Ordering};
 use std::sync::{Arc, Weak};
 use sv_parser::{Define, DefineText};
 use nom_packrat::verif as memo;
-use nom_packrat::verif::MemoStats;
 use sv_parser_parser::verif::{self, Sim};
 use sv_parser_parser::{Span, SpanInfo};
 
@@ -251,13 +250,38 @@ impl Sim for SimCtx {
 
 // ---------------------------------------------------------------------------------------------
 
-#[derive(Clone, Debug, Default)]
+/// counters of the instrumented memo (copied out of nom_packrat::verif)
+#[derive(Clone, Copy, Debug, Default, serde::Serialize, serde::Deserialize)]
+pub struct MemoStats {
+    pub gets: u64,
+    pub hits: u64,
+    pub misses: u64,
+    pub inserts: u64,
+    pub evictions: u64,
+    pub misses_after_evict: u64,
+    pub max_len: u64,
+}
+
+fn memo_stats() -> MemoStats {
+    let m = memo::stats();
+    MemoStats {
+        gets: m.gets,
+        hits: m.hits,
+        misses: m.misses,
+        inserts: m.inserts,
+        evictions: m.evictions,
+        misses_after_evict: m.misses_after_evict,
+        max_len: m.max_len,
+    }
+}
+
+#[derive(Clone, Debug, Default, serde::Serialize, serde::Deserialize)]
 pub struct ExecOpts {
     /// C08: after an Ok, walk the tree, format it, convert every node to Locate, look up origins
     pub exercise_tree: bool,
 }
 
-#[derive(Clone, Debug)]
+#[derive(Clone, Debug, serde::Serialize, serde::Deserialize)]
 pub struct CallOutcome {
     pub thread: usize,
     /// index of the op in the thread's program
@@ -302,15 +326,18 @@ impl CallOutcome {
     }
 }
 
-#[derive(Clone, Debug, Default)]
+#[derive(Clone, Debug, Default, serde::Serialize, serde::Deserialize)]
 pub struct RunOutcome {
     pub calls: Vec<CallOutcome>,
     pub log: Vec<Event>,
     pub sched: SchedReport,
     pub steps: u64,
-    pub fired: BTreeMap<&'static str, u64>,
+    pub fired: BTreeMap<String, u64>,
     pub open_budget_tripped: bool,
     pub harness_error: Option<String>,
+    /// the process executing the scenario died (signal / abort), e.g. stack overflow
+    #[serde(default)]
+    pub aborted: Option<String>,
 }
 
 impl RunOutcome {
@@ -583,7 +610,7 @@ fn run_call(ctx: &Arc<SimCtx>, tid: usize, index: usize, call: &Call, opts: &Exe
         steps: ctx.steps.load(Ordering::Relaxed) - steps0,
         residue_before,
         residue_after: residue3(),
-        memo: memo::stats(),
+        memo: memo_stats(),
         max_file_depth: ctx.max_file_depth.load(Ordering::Relaxed),
         max_macro_depth: ctx.max_macro_depth.load(Ordering::Relaxed),
         max_nest: ctx.max_nest.load(Ordering::Relaxed),
@@ -607,7 +634,7 @@ impl<'a> Drop for FinishGuard<'a> {
     }
 }
 
-pub fn exec(sc: &Scenario, opts: &ExecOpts) -> RunOutcome {
+fn exec_inproc(sc: &Scenario, opts: &ExecOpts) -> RunOutcome {
     install_panic_hook();
     let vfs = Arc::new(Vfs::new(&sc.cwd, &sc.vfs, sc.knobs.open_budget));
     let n = sc.threads.len();
@@ -687,7 +714,7 @@ pub fn exec(sc: &Scenario, opts: &ExecOpts) -> RunOutcome {
         }
     }
     out.log = vfs.log();
-    out.fired = vfs.fired();
+    out.fired = vfs.fired().into_iter().map(|(k, v)| (k.to_string(), v)).collect();
     out.open_budget_tripped = vfs.budget_tripped();
     match &shared.sched {
         Some(s) => {
@@ -734,4 +761,114 @@ pub fn vfs_before(sc: &Scenario, thread: usize, index: usize) -> Vec<VNode> {
         }
     }
     nodes.into_values().collect()
+}
+
+// ---------------------------------------------------------------------------------------------
+// process isolation: every execution of a scenario happens in a pristine child process, so
+// that (1) process-wide state (a `static` cache) left by one execution can neither hide nor
+// fake a difference in another, (2) "fresh thread" references are also fresh processes,
+// (3) a stack overflow kills only the execution it belongs to, (4) a replay in a new process
+// sees exactly what the batch saw.
+
+static IN_CHILD: std::sync::atomic::AtomicBool = std::sync::atomic::AtomicBool::new(false);
+
+const FULL_LIMIT: usize = 16 * 1024;
+
+#[derive(serde::Serialize, serde::Deserialize)]
+struct ExecRequest {
+    scenario: Scenario,
+    opts: ExecOpts,
+}
+
+/// `svsim exec1`: read one request from stdin, execute, write the outcome to stdout
+pub fn cmd_exec1() -> i32 {
+    IN_CHILD.store(true, Ordering::Relaxed);
+    let mut input = String::new();
+    if std::io::Read::read_to_string(&mut std::io::stdin(), &mut input).is_err() {
+        return 2;
+    }
+    let req: ExecRequest = match serde_json::from_str(&input) {
+        Ok(r) => r,
+        Err(e) => {
+            eprintln!("svsim exec1: {}", e);
+            return 2;
+        }
+    };
+    let mut out = exec_inproc(&req.scenario, &req.opts);
+    for c in out.calls.iter_mut() {
+        if let Some(d) = c.digest.as_mut() {
+            if d.full.len() > FULL_LIMIT {
+                let mut cut = FULL_LIMIT;
+                while !d.full.is_char_boundary(cut) {
+                    cut -= 1;
+                }
+                d.full.truncate(cut);
+                d.full.push_str("\n<canonical form truncated; hashes cover all of it>\n");
+            }
+        }
+    }
+    let so = std::io::stdout();
+    let mut l = so.lock();
+    use std::io::Write;
+    let _ = writeln!(l, "{}", serde_json::to_string(&out).unwrap_or_default());
+    let _ = l.flush();
+    0
+}
+
+pub fn exec(sc: &Scenario, opts: &ExecOpts) -> RunOutcome {
+    if IN_CHILD.load(Ordering::Relaxed) || std::env::var("SVSIM_INPROC").is_ok() {
+        return exec_inproc(sc, opts);
+    }
+    use std::io::Write;
+    use std::process::{Command, Stdio};
+    let mut out = RunOutcome::default();
+    let exe = match std::env::current_exe() {
+        Ok(e) => e,
+        Err(e) => {
+            out.harness_error = Some(format!("current_exe: {}", e));
+            return out;
+        }
+    };
+    let req = serde_json::to_string(&ExecRequest { scenario: sc.clone(), opts: opts.clone() }).unwrap_or_default();
+    let child = Command::new(exe)
+        .arg("exec1")
+        .stdin(Stdio::piped())
+        .stdout(Stdio::piped())
+        .stderr(Stdio::null())
+        .spawn();
+    let mut child = match child {
+        Ok(c) => c,
+        Err(e) => {
+            out.harness_error = Some(format!("spawn exec1: {}", e));
+            return out;
+        }
+    };
+    if let Some(mut stdin) = child.stdin.take() {
+        let _ = stdin.write_all(req.as_bytes());
+    }
+    let res = child.wait_with_output();
+    match res {
+        Err(e) => {
+            out.harness_error = Some(format!("wait exec1: {}", e));
+            out
+        }
+        Ok(o) => {
+            let text = String::from_utf8_lossy(&o.stdout);
+            if let Some(line) = text.lines().find(|l| l.starts_with('{')) {
+                match serde_json::from_str::<RunOutcome>(line) {
+                    Ok(r) => return r,
+                    Err(e) => {
+                        out.harness_error = Some(format!("bad exec1 outcome: {}", e));
+                        return out;
+                    }
+                }
+            }
+            use std::os::unix::process::ExitStatusExt;
+            match o.status.signal() {
+                Some(sig) => out.aborted = Some(format!("signal {}", sig)),
+                None => out.harness_error = Some(format!("exec1 exit {:?} without outcome", o.status.code())),
+            }
+            out
+        }
+    }
 }
